@@ -22,7 +22,8 @@ type TSpec struct {
 	Edge     func(b *ssa.BasicBlock, si int) []Mask // nil: identity
 	Callees  func(call ssa.CallInstruction) []*ssa.Function
 	NoReturn func(ins ssa.Instruction) bool
-	// GoAsCall (optional): treat this go statement as a synchronous call (the spawner provably waits for it)
+	// GoAsCall: treat this go statement as a synchronous call (the spawner provably waits for it).
+	// Default (nil): JoinedOnAllPaths(g) == nil.
 	GoAsCall func(g *ssa.Go) bool
 }
 
@@ -200,7 +201,7 @@ func (ts *TS) intra(fn *ssa.Function, in Mask, check func(ins ssa.Instruction, m
 				continue
 			case *ssa.Go:
 				// a go statement runs elsewhere, unless the spawner is known to wait for it
-				if ts.Spec.GoAsCall != nil && ts.Spec.GoAsCall(g) {
+				if (ts.Spec.GoAsCall != nil && ts.Spec.GoAsCall(g)) || (ts.Spec.GoAsCall == nil && JoinedOnAllPaths(g) == nil) {
 					cur = ts.callEffect(g, cur, summary, enter, final)
 				}
 				continue
@@ -393,4 +394,25 @@ func (ts *TS) Run(entry *ssa.Function, init Mask, check func(fn *ssa.Function, i
 		}
 	}
 	return exit
+}
+
+// JoinedOnAllPaths returns a return instruction the spawner can reach from the go statement without an
+// unconditional channel receive or WaitGroup.Wait (nil: joined on every path).
+func JoinedOnAllPaths(g *ssa.Go) *ssa.Return {
+	isJoin := func(ins ssa.Instruction) bool {
+		switch x := ins.(type) {
+		case *ssa.UnOp:
+			return x.Op == token.ARROW
+		case *ssa.Call:
+			return CallName(x) == "(*sync.WaitGroup).Wait"
+		}
+		return false
+	}
+	var escaped *ssa.Return
+	Search{StopInstr: isJoin}.Reach([]Point{After(g)}, func(ins ssa.Instruction, _ *ssa.BasicBlock) {
+		if r, ok := ins.(*ssa.Return); ok && escaped == nil {
+			escaped = r
+		}
+	})
+	return escaped
 }
